@@ -1,48 +1,54 @@
 //! C05 — the three standard combiners on an |A| x |B| matrix (compiled inside `hpo::similarity`).
 use super::*;
 
-/// Entries are drawn from the grid k/8, k: u8 (256 exactly representable values per entry, sums
-/// and maxima exact), so the reference takes maxima and sums in integers, converts once and then
+/// Entries are drawn from the grid k/8, k: i8 (256 exactly representable values per entry, negative
+/// ones included - a user-supplied similarity may return them; sums and maxima exact), so the
+/// reference takes maxima and sums in integers, converts once and then
 /// performs the same final f32 operations (DESIGN §5 C05: the full-range f32 query is a genuine
 /// FP-equivalence problem that does not finish).
-fn combiner<const R: usize, const C: usize, const N: usize>(which: StandardCombiner) {
+fn combiner<const R: usize, const C: usize, const N: usize, const SIGNED: bool>(which: StandardCombiner) {
     assert!(N == R * C);
-    let k: [u8; N] = kani::any();
+    let k: [i8; N] = kani::any();
     let mut data = [0f32; N];
     let mut i = 0;
     while i < N {
+        if !SIGNED {
+            // non-negative half of the grid (the range of every built-in similarity): 2x2 in ~1 min;
+            // with negative entries the same 2x2 query needs ~10 min, so those get their own instances
+            kani::assume(k[i] >= 0);
+        }
         data[i] = k[i] as f32 / 8.0;
         i += 1;
     }
     let m = Matrix::new(R, C, &data);
     let got = which.calculate(&m);
 
-    let mut rs: u32 = 0; // sum of row maxima
+    let mut rs: i32 = 0; // sum of row maxima
     let mut i = 0;
     while i < R {
-        let mut mx = 0u8;
-        let mut j = 0;
+        let mut mx = k[i * C];
+        let mut j = 1;
         while j < C {
             if k[i * C + j] > mx {
                 mx = k[i * C + j];
             }
             j += 1;
         }
-        rs += mx as u32;
+        rs += mx as i32;
         i += 1;
     }
-    let mut cs: u32 = 0; // sum of column maxima
+    let mut cs: i32 = 0; // sum of column maxima
     let mut j = 0;
     while j < C {
-        let mut mx = 0u8;
-        let mut i = 0;
+        let mut mx = k[j];
+        let mut i = 1;
         while i < R {
             if k[i * C + j] > mx {
                 mx = k[i * C + j];
             }
             i += 1;
         }
-        cs += mx as u32;
+        cs += mx as i32;
         j += 1;
     }
     let rsf = rs as f32 / 8.0;
@@ -66,11 +72,13 @@ fn combiner<const R: usize, const C: usize, const N: usize>(which: StandardCombi
         }
         StandardCombiner::Bma => (rsf + csf) / (rows + cols),
     };
-    assert!(got.to_bits() == expected.to_bits(), "combiner equals its documented formula");
-    assert!(got >= 0.0 && got.is_finite());
+    // -0.0 and +0.0 are the same score: compare values, not bit patterns, when the result is zero
+    assert!(got == expected && (got != 0.0 || expected == 0.0), "combiner equals its documented formula");
+    assert!(got.is_finite());
     kani::cover!(rs != cs, "opt: row and column maxima sums differ");
-    kani::cover!(rs > 0, "non-zero matrix");
-    kani::cover!(R != C && rs * (C as u32) != cs * (R as u32), "opt: non-square with different means");
+    kani::cover!(rs > 0, "positive row maxima");
+    kani::cover!(SIGNED && cs < 0, "opt: all-negative columns");
+    kani::cover!(R != C && rs * (C as i32) != cs * (R as i32), "opt: non-square with different means");
 }
 
 macro_rules! comb_harness {
@@ -78,7 +86,7 @@ macro_rules! comb_harness {
         #[kani::proof]
         #[kani::unwind(11)]
         fn $name() {
-            combiner::<$r, $c, { $r * $c }>($w);
+            combiner::<$r, $c, { $r * $c }, false>($w);
         }
     };
 }
@@ -101,6 +109,22 @@ comb_harness!(c05_bma_2x3, 2, 3, StandardCombiner::Bma);
 comb_harness!(c05_bma_3x2, 3, 2, StandardCombiner::Bma);
 comb_harness!(c05_bma_3x3, 3, 3, StandardCombiner::Bma);
 
+macro_rules! comb_signed {
+    ($name:ident, $r:expr, $c:expr, $w:expr) => {
+        #[kani::proof]
+        #[kani::unwind(11)]
+        fn $name() {
+            combiner::<$r, $c, { $r * $c }, true>($w);
+        }
+    };
+}
+comb_signed!(c05_signed_funsimavg_1x2, 1, 2, StandardCombiner::FunSimAvg);
+comb_signed!(c05_signed_funsimmax_2x1, 2, 1, StandardCombiner::FunSimMax);
+comb_signed!(c05_signed_bma_2x1, 2, 1, StandardCombiner::Bma);
+comb_signed!(c05_signed_bma_2x2, 2, 2, StandardCombiner::Bma);
+comb_signed!(c05_signed_funsimavg_2x2, 2, 2, StandardCombiner::FunSimAvg);
+comb_signed!(c05_signed_funsimmax_2x2, 2, 2, StandardCombiner::FunSimMax);
+
 /// empty matrix => 0 for all three combiners (either set empty)
 #[kani::proof]
 #[kani::unwind(4)]
@@ -121,7 +145,7 @@ fn c05_empty_matrix_is_zero() {
 #[kani::proof]
 #[kani::unwind(6)]
 fn c05_twin_must_fail() {
-    combiner::<2, 2, 4>(StandardCombiner::Bma);
+    combiner::<2, 2, 4, false>(StandardCombiner::Bma);
     assert!(false, "twin: reachability witness");
 }
 
